@@ -294,7 +294,7 @@ fn refusals(ctx: &Ctx, rep: &mut Report, id: usize, r: usize, leg: &str) {
     let build = |ms: &[&Member]| -> (Vec<Transcript>, Vec<Stmt>, Vec<Proof>) {
         (ms.iter().map(|m| m.ctx.transcript()).collect(), ms.iter().map(|m| m.st.clone()).collect(), ms.iter().map(|m| m.proof.clone()).collect())
     };
-    let mut expect_err = |rep: &mut Report, what: &str, ts: Vec<Transcript>, sts: Vec<Stmt>, proofs: Vec<Proof>| {
+    let expect_err = |rep: &mut Report, what: &str, ts: Vec<Transcript>, sts: Vec<Stmt>, proofs: Vec<Proof>| {
         rep.eval(&(GROUP, "refusal", what.to_string(), k));
         rep.count("refusal_cases", 1);
         for action in ACTIONS {
